@@ -484,6 +484,8 @@ def _k9_by_kernel_stub(rep, flow):
     for r in (2, 3):
         subsets = [T for k in range(1, r + 1) for T in itertools.combinations(range(r), k)]
         for T in subsets:
+            budget = [60000]
+
             def extend(rows):
                 k = len(rows)
                 if k == r:
@@ -491,6 +493,9 @@ def _k9_by_kernel_stub(rep, flow):
                 for v in vecs:
                     if v in rows:
                         continue
+                    budget[0] -= 1
+                    if budget[0] < 0:
+                        return None          # no witness within the search budget: this subset is left undecided (noted)
                     cand = rows + [v]
                     if all(valid(xor([cand[i] for i in U])) == (U == T) for U in subsets if max(U) == k):
                         got = extend(cand)
